@@ -7,7 +7,7 @@
    case by the harness from its independent implementation (tables); a table miss is a mismatch. *)
 From Coq Require Export String Ascii.
 From Coq Require Import List NArith ZArith Bool.
-From Evm Require Export SigWrap HdPath Eip712Enc CorrBase.
+From Evm Require Export SigWrap HdPath Eip712Enc SignDocFields CorrBase.
 (* tymap_ok / doc_parts: the side conditions of C19_render_injective_or_collision_partial, evaluated on every case *)
 From Evm Require Import Eip712EncProofs.
 Import ListNotations.
@@ -167,7 +167,36 @@ Inductive ccase :=
 | CAminoEnc (pub : bool) (key obs : bytes)
 | CAminoDec (pub : bool) (bz : bytes) (obs : option bytes)
 | CEip (doc : json) (obs : option bytes)
-| CTyped (T : tymap) (prim : bytes) (dom msg : json) (obs : option bytes).
+| CTyped (T : tymap) (prim : bytes) (dom msg : json) (obs : option bytes)
+(* the fields of a SIGN_MODE_DIRECT sign document as the driver reads them by reflection from the message descriptors
+   (path, kind): must be exactly the model's table (Model/SignDocFields.v pb_table) *)
+| CPbFields (l : list (bytes * bytes))
+(* how the real GetEIP712BytesForMsg treated every generated perturbation of one field, over the whole run:
+   PRendered = never rendered the same (accepted ones rendered differently), PRefused = always refused,
+   PSame = accepted and rendered the same at least once: must be the class the model's guard list gives the field *)
+| CPbField (path : bytes) (cls : pclass)
+(* json keys of legacytx.StdSignDoc / StdFee read by Go reflection *)
+| CAminoKeys (l : list bytes).
+
+Definition pclass_eqb (a b : pclass) : bool :=
+  match a, b with
+  | PRendered, PRendered | PRefused, PRefused | PSame, PSame | PUntouched, PUntouched => true
+  | _, _ => false
+  end.
+
+Fixpoint table_eqb (a b : list (bytes * bytes)) : bool :=
+  match a, b with
+  | [], [] => true
+  | (p, k) :: a', (q, l) :: b' => beqb p q && beqb k l && table_eqb a' b'
+  | _, _ => false
+  end.
+
+Fixpoint blist_eqb (a b : list bytes) : bool :=
+  match a, b with
+  | [], [] => true
+  | p :: a', q :: b' => beqb p q && blist_eqb a' b'
+  | _, _ => false
+  end.
 
 Definition obeqb (a b : option bytes) : bool :=
   match a, b with
@@ -260,6 +289,13 @@ Definition crypto_ok (c : ccase) : bool :=
       else true
     | _, _ => false
     end
+  | CPbFields l => table_eqb l pb_table
+  | CPbField path cls =>
+    match field_of_path all_fields path with
+    | Some f => pclass_eqb (pb_class f) cls
+    | None => false
+    end
+  | CAminoKeys l => blist_eqb l amino_keys
   end.
 
 Definition crypto_mismatches (off : nat) (l : list ccase) : list nat := mism crypto_ok off l.
